@@ -598,12 +598,15 @@ def install():
     def _sym_repr(obj):
         with NoTracing():
             symstr = isinstance(obj, AnySymbolicStr)
+            symbytes = isinstance(obj, (SymbolicBytes, SymbolicByteArray))
         if symstr:
             return "'<symbolic str>'"
+        if symbytes:
+            return "b'<symbolic bytes>'"
         return _orig_repr(obj) if _orig_repr is not None else repr(obj)
 
     _core._PATCH_REGISTRATIONS[repr] = _sym_repr
-    _note("repr() of a symbolic str -> constant (only used in messages); strict codec errors raised without realising the input")
+    _note("repr() of a symbolic str / bytes -> constant (only used in log and error messages); strict codec errors raised without realising the input")
 
 
     # ---- datetime rendering in LogixDriver.get_plc_time: opaque stand-ins (the rendering is outside every claim)
